@@ -1,0 +1,25 @@
+//go:build verif
+
+package fontscan
+
+import "github.com/go-text/typesetting/language"
+
+// Verification hooks (property C11, second part): language sets and script sets.
+
+// VerifLanguagesRunes returns the table of the runes required by each language (index = LangID).
+func VerifLanguagesRunes() []RuneSet { return languagesRunes[:] }
+
+// VerifLangsetFromCoverage is newLangsetFromCoverage.
+func VerifLangsetFromCoverage(rs RuneSet) LangSet { return newLangsetFromCoverage(rs) }
+
+// VerifScriptSetInsert is ScriptSet.insert applied to a copy of [ss].
+func VerifScriptSetInsert(ss []language.Script, s language.Script) []language.Script {
+	out := append(ScriptSet(nil), ss...)
+	out.insert(s)
+	return out
+}
+
+// VerifScriptSetContains is ScriptSet.contains.
+func VerifScriptSetContains(ss []language.Script, s language.Script) bool {
+	return ScriptSet(ss).contains(s)
+}
